@@ -7,7 +7,8 @@ From Rodbus Require Import Gen.LockScope Spec.AtomicSpec Model.Atomic Proofs.Ato
 Import ListNotations.
 
 Definition code_step : world -> nat -> world :=
-  if reply_in_one_critical_section && transaction_in_one_critical_section && wrapper_takes_no_lock
+  if reply_in_one_critical_section && reply_bytes_formatted_under_lock && locked_statement_is_synchronous
+     && transaction_in_one_critical_section && wrapper_takes_no_lock
   then step else step_pp.
 Definition code_run (w : world) (sched : list nat) : world := fold_left code_step sched w.
 
@@ -19,3 +20,11 @@ Theorem atomic_for_the_code : forall d0 jobs sched j t addrs,
   nth_error (threads w) j = Some t -> finished t = true -> tjob t = Req addrs ->
   atomic_obs d0 (committed w) addrs (obs t).
 Proof. unfold code_run. rewrite code_step_is_step. exact C19_atomic. Qed.
+
+(* what the translator established about the lock, as one statement *)
+Theorem lock_scope_facts :
+  reply_in_one_critical_section = true /\ reply_bytes_formatted_under_lock = true /\
+  locked_statement_is_synchronous = true /\ socket_write_after_unlock = true /\
+  authorization_before_lock = true /\ transaction_in_one_critical_section = true /\
+  wrapper_takes_no_lock = true /\ broadcast_locks_each_unit_separately = true.
+Proof. repeat split; reflexivity. Qed.
